@@ -76,6 +76,20 @@ def framing(c, L, vt, sig, sign):
     c.check(all_of([seq_eq(h, ref_hdr), seq_eq(t, bytes([9, 6, p16, 0, 0, 0, 0, 0])), len(h) == 24, len(t) == 8]), "exactly header|stub+pad|trailer handed to wrap")
     c.check(all_of([seq_eq(wire[:24], h), seq_eq(wire[24 : 24 + len(b)], call["sealed"]), seq_eq(wire[24 + len(b) : 32 + len(b)], t),
                     seq_eq(wire[32 + len(b) :], call["sig"]), n == 32 + len(b) + sig]), "wire = header | sealed | trailer | signature")
+    # a second request on the same client (different length residue): its framing must not depend on the first one
+    L2 = (L * 7 + 5) % 61
+    stub2 = c.bytes("stub2", L2)
+    req2, off2 = c.call(client._create_request, ctx_id, opnum, stub2, verification_trailer=None if vt else VT)
+    wire2 = refs.cat(c.call(client._prepare_pdu, req2, off2))
+    call2 = ctx.wrap_calls[1]
+    (_, h2), (_, b2), (_, t2), _ = call2["bufs"]
+    vt2 = b"" if vt else VT.pack()
+    q4 = 0 if vt else (-L2 % 4)
+    body2 = L2 + q4 + len(vt2)
+    q16 = -body2 % 16
+    c.check(all_of([len(b2) == body2 + q16, t2[2] == q16, seq_eq(b2[:L2], stub2), seq_eq(b2[L2 + q4 : L2 + q4 + len(vt2)], vt2), len(wire2) == 24 + len(b2) + 8 + sig,
+                    wire2[8] == (len(wire2) & 0xFF), wire2[9] == (len(wire2) >> 8), wire2[10] == sig & 0xFF, seq_eq(wire2[24 + len(b2) : 32 + len(b2)], t2)]),
+            "second request on the same client is framed on its own")
     return n
 
 
